@@ -15,6 +15,11 @@ if [ "$check" = c17 ]; then
   ./tools/build_c17.sh /repo "$VERIF_ROOT/bin/lsmc-c17" || { echo "BUILD FAILED (c17 variant)"; exit 2; }
   exec ./bin/lsmc-c17 c17 "$@"
 fi
+if [ "$check" = c12 ]; then
+  # schedule explorer: litestream rebuilt from rewritten sources (sync -> scheduler shims) via a generated overlay
+  ./tools/build_c12.sh /repo "$VERIF_ROOT/bin/lsmc-c12" || { echo "BUILD FAILED (c12 variant)"; exit 2; }
+  exec ./bin/lsmc-c12 c12 "$@"
+fi
 case "$check" in
   c18) export LSMC_TAGS=vfs; bin=lsmc-vfs ;;   # VFS code needs -tags vfs (cgo)
 esac
